@@ -56,9 +56,9 @@ fn acts(n: &Node, jump_to: u64) -> Vec<Action> {
 pub fn run(run: &Run) {
     let thorough = run.thorough();
     let nets = [NetID::Mainnet, NetID::Testnet, NetID::Custom02, NetID::Custom03, NetID::Custom04, NetID::Custom05, NetID::Custom06, NetID::Custom07, NetID::Custom08];
-    let depth = if thorough { 9 } else { 7 };
+    let depth = if thorough { 11 } else { 9 };
     for net in nets {
-        if !thorough && matches!(net, NetID::Custom03 | NetID::Custom04 | NetID::Custom05 | NetID::Custom06 | NetID::Custom07) {
+        if false && !thorough && matches!(net, NetID::Custom03 | NetID::Custom04 | NetID::Custom05 | NetID::Custom06 | NetID::Custom07) {
             // quick tier: the custom networks share one code path; Custom02 and Custom08 stand for them
             continue;
         }
